@@ -190,6 +190,13 @@ def helper_checks(facts, body, helpers, recursive=True, _depth=0):
                 o = b.origins(t["args"][0])
                 if o and all(x[0] == "param" and x[1] == 1 and x[2] in ("", "*") for x in o):
                     out += helper_checks(facts, cb, helpers, recursive, _depth + 1)
+                elif o and all(x[0] == "param" and x[1] == 1 for x in o) and len(t["args"]) == 1:
+                    # a free helper handed one field of the value: `check_x(self.x)?` (the subject is named by the helper's
+                    # parameter; only accepted when that name is the field's name)
+                    fld = re.findall(r"\.([A-Za-z_][A-Za-z_0-9]*)", o[0][2])
+                    sub = helper_checks(facts, cb, helpers, recursive, _depth + 1)
+                    if fld and all((c.get("cond") or {}).get("subject") == fld[-1] for c in sub):
+                        out += sub
     return out
 
 
